@@ -276,6 +276,10 @@ func (dec *Decoder) decodeMB(tokenBR *bitio.BoolReader) error {
 
 	if !skip {
 		dec.parseResiduals(mb, left, block, tokenBR)
+		// As in libwebp (skip = ParseResiduals(...)): a macroblock whose
+		// residuals all turned out to be zero counts as skipped for the
+		// inner-edge loop-filter decision below.
+		skip = (block.NonZeroY | block.NonZeroUV) == 0
 	} else {
 		left.Nz = 0
 		mb.Nz = 0
